@@ -1,0 +1,221 @@
+//! Verification hooks, compiled only with the `verif` cargo feature.
+//!
+//! A deterministic simulator can install a [`Sim`] to observe (and gate) named
+//! points in the code and to own the clocks. With the feature on but nothing
+//! installed every hook is a no-op and the clocks are the real ones.
+
+use std::future::Future;
+use std::ops::{Add, Sub};
+use std::pin::Pin;
+use std::sync::{Arc, OnceLock, RwLock};
+use std::task::{Context, Poll};
+use std::time::Duration;
+
+#[derive(Clone, Copy, Debug, PartialEq, Eq)]
+pub enum Action {
+    /// Carry on as usual.
+    Continue,
+    /// The site should fail with an injected error (fault points only).
+    Fail,
+    /// Async points only: return `Pending` once before carrying on.
+    Yield,
+}
+
+pub trait Sim: Send + Sync + 'static {
+    /// A named site was reached by the calling thread. May block the caller.
+    fn point(&self, site: &'static str, a: u64, b: u64) -> Action;
+    /// Simulated monotonic clock in nanoseconds, `None` for the real clock.
+    fn mono_nanos(&self) -> Option<u64> {
+        None
+    }
+    /// Simulated wall clock in nanoseconds since the Unix epoch, `None` for the real clock.
+    fn wall_nanos(&self) -> Option<u64> {
+        None
+    }
+}
+
+static SIM: RwLock<Option<Arc<dyn Sim>>> = RwLock::new(None);
+static BASE: OnceLock<std::time::Instant> = OnceLock::new();
+
+fn current() -> Option<Arc<dyn Sim>> {
+    SIM.read().unwrap_or_else(|e| e.into_inner()).clone()
+}
+
+pub fn install(sim: Arc<dyn Sim>) {
+    BASE.get_or_init(std::time::Instant::now);
+    *SIM.write().unwrap_or_else(|e| e.into_inner()) = Some(sim);
+}
+
+pub fn uninstall() {
+    *SIM.write().unwrap_or_else(|e| e.into_inner()) = None;
+}
+
+pub fn installed() -> bool {
+    SIM.read().unwrap_or_else(|e| e.into_inner()).is_some()
+}
+
+#[inline]
+pub fn point(site: &'static str, a: u64, b: u64) -> Action {
+    match current() {
+        Some(sim) => sim.point(site, a, b),
+        None => Action::Continue,
+    }
+}
+
+/// Returns true when the simulator asks the site to fail.
+#[inline]
+pub fn fail_point(site: &'static str, a: u64, b: u64) -> bool {
+    point(site, a, b) == Action::Fail
+}
+
+/// Async point: yields to the executor once when the simulator answers `Yield`.
+pub fn apoint(site: &'static str, a: u64, b: u64) -> impl Future<Output = ()> {
+    struct YieldOnce(bool);
+    impl Future for YieldOnce {
+        type Output = ();
+        fn poll(mut self: Pin<&mut Self>, cx: &mut Context<'_>) -> Poll<()> {
+            if self.0 {
+                self.0 = false;
+                cx.waker().wake_by_ref();
+                Poll::Pending
+            } else {
+                Poll::Ready(())
+            }
+        }
+    }
+    YieldOnce(point(site, a, b) == Action::Yield)
+}
+
+/// Emits `point(site, a, b)` when dropped.
+pub struct OnDrop(pub &'static str, pub u64, pub u64);
+
+impl Drop for OnDrop {
+    fn drop(&mut self) {
+        point(self.0, self.1, self.2);
+    }
+}
+
+#[cfg(unix)]
+pub fn fd_of(file: &std::fs::File) -> u64 {
+    use std::os::fd::AsRawFd;
+    file.as_raw_fd() as u64
+}
+
+/// Drop-in for `std::time::Instant` that reads the simulated monotonic clock when one is installed.
+#[derive(Clone, Copy, Debug, PartialEq, Eq, PartialOrd, Ord, Hash)]
+pub struct Instant(std::time::Instant);
+
+impl Instant {
+    pub fn now() -> Self {
+        match current().and_then(|sim| sim.mono_nanos()) {
+            Some(nanos) => {
+                let base = *BASE.get_or_init(std::time::Instant::now);
+                Instant(base + Duration::from_nanos(nanos))
+            }
+            None => Instant(std::time::Instant::now()),
+        }
+    }
+
+    pub fn elapsed(&self) -> Duration {
+        Instant::now().0.saturating_duration_since(self.0)
+    }
+
+    pub fn duration_since(&self, earlier: Instant) -> Duration {
+        self.0.saturating_duration_since(earlier.0)
+    }
+
+    pub fn saturating_duration_since(&self, earlier: Instant) -> Duration {
+        self.0.saturating_duration_since(earlier.0)
+    }
+
+    pub fn checked_duration_since(&self, earlier: Instant) -> Option<Duration> {
+        self.0.checked_duration_since(earlier.0)
+    }
+
+    pub fn checked_add(&self, d: Duration) -> Option<Instant> {
+        self.0.checked_add(d).map(Instant)
+    }
+
+    pub fn checked_sub(&self, d: Duration) -> Option<Instant> {
+        self.0.checked_sub(d).map(Instant)
+    }
+
+    pub fn into_std(self) -> std::time::Instant {
+        self.0
+    }
+}
+
+impl Add<Duration> for Instant {
+    type Output = Instant;
+    fn add(self, d: Duration) -> Instant {
+        Instant(self.0 + d)
+    }
+}
+
+impl Sub<Duration> for Instant {
+    type Output = Instant;
+    fn sub(self, d: Duration) -> Instant {
+        Instant(self.0 - d)
+    }
+}
+
+impl Sub<Instant> for Instant {
+    type Output = Duration;
+    fn sub(self, other: Instant) -> Duration {
+        self.0.saturating_duration_since(other.0)
+    }
+}
+
+/// Drop-in for `std::time::SystemTime` that reads the simulated wall clock when one is installed.
+#[derive(Clone, Copy, Debug, PartialEq, Eq, PartialOrd, Ord, Hash)]
+pub struct SystemTime(std::time::SystemTime);
+
+pub const UNIX_EPOCH: SystemTime = SystemTime(std::time::UNIX_EPOCH);
+
+impl SystemTime {
+    pub const UNIX_EPOCH: SystemTime = UNIX_EPOCH;
+
+    pub fn now() -> Self {
+        match current().and_then(|sim| sim.wall_nanos()) {
+            Some(nanos) => SystemTime(std::time::UNIX_EPOCH + Duration::from_nanos(nanos)),
+            None => SystemTime(std::time::SystemTime::now()),
+        }
+    }
+
+    pub fn duration_since(
+        &self,
+        earlier: SystemTime,
+    ) -> Result<Duration, std::time::SystemTimeError> {
+        self.0.duration_since(earlier.0)
+    }
+
+    pub fn elapsed(&self) -> Result<Duration, std::time::SystemTimeError> {
+        SystemTime::now().0.duration_since(self.0)
+    }
+
+    pub fn checked_add(&self, d: Duration) -> Option<SystemTime> {
+        self.0.checked_add(d).map(SystemTime)
+    }
+
+    pub fn checked_sub(&self, d: Duration) -> Option<SystemTime> {
+        self.0.checked_sub(d).map(SystemTime)
+    }
+
+    pub fn into_std(self) -> std::time::SystemTime {
+        self.0
+    }
+}
+
+impl Add<Duration> for SystemTime {
+    type Output = SystemTime;
+    fn add(self, d: Duration) -> SystemTime {
+        SystemTime(self.0 + d)
+    }
+}
+
+impl Sub<Duration> for SystemTime {
+    type Output = SystemTime;
+    fn sub(self, d: Duration) -> SystemTime {
+        SystemTime(self.0 - d)
+    }
+}
